@@ -47,6 +47,7 @@ LEVEL_NOTE = ("Partial: F15 (top-level name \"system\") is excluded by hypothesi
               "F29-C12-LIMITS (non-applicable limits are not saved; the theorem speaks of applicable limits, `nonapplicable_limits_dropped` "
               "states the loss). The layout hypothesis `LayoutOK` of `roundtrip_partial` depends on rustworkx's BFS (a parameter of the "
               "model); its executable form is proved sound (`layout_conditions_sound`) and evaluated by the driver on every generated system.")
+LEVEL_NOTE = LEVEL_NOTE + (' Open-ended limits (a bound of +-inf) are outside the exact-rational model: that stream compares the implementation with itself only (reports of from_file(save(S)) vs S).')
 MODULE = "SysLoss.Props.C12"
 THEOREMS = [
     "SysLoss.C12.reload_comp",
@@ -122,6 +123,12 @@ def tame(rng, desc, p_diode=0.0, p_nonappl=0.0, p_iq=0.25, p_int=0.1):
     stream, and add the parameter forms gen_system does not produce (deprecated LinReg iq, int values)"""
     keep_diode = rng.random() < p_diode
     keep_nonappl = rng.random() < p_nonappl
+    br = (desc.get("_build") or {}).get("bridge")
+    if br and any(c["name"] == br["child"] and len(c["parents"]) > 1 for c in desc["comps"]):
+        # a bridged child with several parents gets ONE of its links re-created at the end, the others keep their place: the sibling
+        # order of the document is then not the order of any component list (which is all the document model of C12 is given -
+        # edit histories are C16's subject), so the plan is dropped here rather than modelled wrongly
+        desc["_build"].pop("bridge")
     for c in desc["comps"]:
         a = c["args"]
         if "limits" in a and not keep_nonappl:
@@ -235,7 +242,7 @@ def cell_same(col, a, b, sc=None):
     if col == "Warnings" and isinstance(a, str) and isinstance(b, str):
         return sorted(x.strip() for x in a.split(",")) == sorted(x.strip() for x in b.split(","))
     if _num(a) and _num(b):
-        if a != a and b != b:
+        if (a != a and b != b) or a == b:          # NaN twice; equal (also +-inf: an open-ended limit)
             return True
         if col == "Efficiency (%)":
             return abs(a - b) <= 1e-7
@@ -327,7 +334,7 @@ def model_params_rows(nodes):
 # ---------------------------------------------------------------------------------------------------
 # one case
 
-def run_case(ctx, tmp, desc, tag, versions=False, dropkeys=False):
+def run_case(ctx, tmp, desc, tag, versions=False, dropkeys=False, model=True):
     case = desc
     ctx.stats["stream:" + tag] += 1
     s, e = sysdesc.quiet_call(sysdesc.build, desc)
@@ -374,6 +381,13 @@ def run_case(ctx, tmp, desc, tag, versions=False, dropkeys=False):
         _, e = sysdesc.quiet_call(s2.save, f2)
         doc2 = json.load(open(f2)) if e is None else {"save-error": exc_name(e)}
 
+    if not model:
+        # values the exact-rational model cannot carry (open-ended limits: +-inf): the implementation against itself only
+        if impl_load != "ok":
+            ctx.oracle(case, "loads", "system", dict(fx), {"from_file(save(S))": impl_load, "message": str(e2)[:200]})
+        else:
+            oracle_reports(ctx, case, desc, s, s2, doc1, doc2, fx, kinds)
+        return "ok"
     # --- correspondence: the model's save / fromFile
     req = {"cmd": "doc", "op": "roundtrip", "carrier": "rat", "ver": LIBVER, "topo": topo, "sys": desc_wire(desc)}
     if topo2 is not None:
@@ -599,6 +613,24 @@ def nonappl_desc(rng):
     return d
 
 
+def open_limits_desc(rng):
+    """applicable limits with an open end: [x, inf] / [-inf, x] (a bound that is not there) - they must come back as they were"""
+    d = tame(rng, gen.gen_system(rng, max_nodes=8, p_limits=0.6, p_rail=0.2, phases=0.2, p_moved=0.0))
+    inf = float("inf")
+    n = 0
+    for c in d["comps"]:
+        ok = sorted(APPL.get(c["kind"], ALL_LIMS))
+        if rng.random() < 0.6:
+            lim = c["args"].setdefault("limits", {})
+            for k in rng.sample(ok, rng.randint(1, min(3, len(ok)))):
+                lo, hi = LIMDEF[k]
+                x = gen.sd(rng, 1e-3, 1e3)
+                lim[k] = rng.choice([[0.0, inf], [-inf, x], [-x, inf], [-inf, inf], [lo, inf]])
+                n += 1
+    d["_open_limits"] = n
+    return d
+
+
 def known_witnesses(ctx, tmp):
     from ..check import load_known, VERIF
     import glob
@@ -620,6 +652,8 @@ def stream(ctx, tmp, n, n_small):
         run_case(ctx, tmp, diode_desc(rng), "diode")
         run_case(ctx, tmp, reserved_desc(rng), "reserved-name")
         run_case(ctx, tmp, nonappl_desc(rng), "nonapplicable-limits")
+        for _k in range(3):
+            run_case(ctx, tmp, open_limits_desc(rng), "open-ended-limits", model=False)
     if n and skipped > 0.2 * n:
         raise RuntimeError("more than 20%% of the generated systems could not be built/saved (%d/%d)" % (skipped, n))
 
@@ -660,6 +694,9 @@ def replay(ctx, data):
                 if newer != (exc_name(e) == "ValueError"):
                     ctx.oracle(c, "version_gate", "system", {}, {"library": LIBVER, "file": ver, "from_file": exc_name(e)})
         else:
-            run_case(ctx, tmp, c, "replay", versions=True, dropkeys=True)
+            if c.get("_open_limits"):
+                run_case(ctx, tmp, c, "replay", model=False)
+            else:
+                run_case(ctx, tmp, c, "replay", versions=True, dropkeys=True)
     finally:
         shutil.rmtree(tmp, ignore_errors=True)
